@@ -446,7 +446,7 @@ class Program:
         # a known function that was renamed in place or moved to another module is given its known path back (inline.reconcile_renames)
         import inline as _inl
         self.known_functions = _inl.load_known(os.path.dirname(os.path.dirname(os.path.abspath(__file__))))
-        self.renamed = _inl.reconcile_renames([rb for rb, c in raws], self.known_functions)
+        self.renamed = _inl.reconcile_renames([rb for rb, c in raws], self.known_functions, _inl.load_signatures(os.path.dirname(os.path.dirname(os.path.abspath(__file__)))))
         for rb, c in raws:
             b = Body(rb, c)
             self.bodies[b.id] = b
